@@ -60,9 +60,8 @@ def gen_side(rng, v, sign, grid, t0, malformed=False):
     if k == "vec_bad":
         return {"vec": [_val(rng, sign) for _ in range(size + rng.choice([1, 2]))]}, k
     # Timeseries kinds
-    if len(grid) == 1:
-        # extra variable (single stamp t0).  A one-row 2-D Timeseries is avoided here: the Timeseries
-        # constructor collapses it to 1-D (see the dedicated probe `probe_one_row_timeseries`)
+    if len(grid) == 1 and rng.random() < 0.6:
+        # extra variable (single stamp t0): stamps around / beside t0; otherwise the one-stamp series
         ts = rng.choice([[t0, t0 + 2.0], [t0 - 1.0, t0], [t0 - 0.5, t0 + 0.25, t0 + 1.0], [t0 + 0.5, t0 + 1.0],
                          [t0 - 2.0, t0 - 1.0]])
     elif k in ("ts_same", "ts_1d_on_vector", "ts2_badcols") or (k == "ts_inf" and rng.random() < 0.5):
@@ -74,7 +73,7 @@ def gen_side(rng, v, sign, grid, t0, malformed=False):
         inner = sorted(set(rng.choice([x for x in grid] + [(grid[j] + grid[j + 1]) / 2 for j in range(len(grid) - 1)])
                            for _ in range(rng.randint(0, 3))))
         ts = sorted(set([a] + [x for x in inner if a < x < b] + ([b] if b > a else [])))
-        if len(ts) < 2:
+        if len(ts) < 2 and rng.random() < 0.5:
             ts = [a, a + 1.0]
     ncol = size
     if k == "ts_1d_on_vector":
@@ -174,10 +173,6 @@ def gen_instance(rng, big=False, malformed=False, solvable=False):
         if solvable and v["kind"] in ("alg", "control"):
             lo, hi, kl, kh = None, None, "none", "none"
         v["lo"], v["hi"] = lo, hi
-        if v["kind"] == "extra" and any(isinstance(sd, dict) and "t" in sd and not (sd["t"][0] <= t0 <= sd["t"][-1])
-                                        for sd in (lo, hi)):
-            # finding C05-B (crash, see `probe_findings`): kept out of the main stream
-            v["mode"] = 0
         v["nokey"] = lo is None and hi is None and rng.random() < 0.5
         kinds[v["name"]] = (kl, kh)
     hist = []
@@ -693,41 +688,6 @@ def stream_solve(c, n):
 
 # ---------------------------------------------------------------------------------------------
 
-def probe_findings(c):
-    """dedicated probes of the two defects found while building this check (reported to the
-    coordinator as C05-A / C05-B); they print KNOWN-FINDING only once listed in known_findings.jsonl"""
-    base = dict(times=[0.0, 1.0, 2.0], E=1, theta=1.0, hist=[{}],
-                vars=[dict(name="x0", kind="state", size=1, times=[0.0, 1.0, 2.0], nom=1.0, lo=None, hi=None,
-                           mode=0, nokey=True)])
-    a = copy.deepcopy(base)
-    a["vars"].append(dict(name="ev0", kind="extra", size=3, times=[0.0], nom=1.0, mode=0, nokey=False, lo=None,
-                          hi={"t": [0.0], "v": [[1.0, 2.0, 3.0]]}))
-    r = run_real(a)
-    rep_a = None
-    if r[0] == "ok":
-        lay = S.recover_layout(r[1]["problem"], a, r[1]["N"])
-        got = r[1]["ubx"][lay[(0, "ev0")].ravel()].tolist()
-        rep_a = got != [1.0, 2.0, 3.0]
-    b = copy.deepcopy(base)
-    b["vars"].append(dict(name="ev0", kind="extra", size=1, times=[0.0], nom=1.0, mode=1, nokey=False,
-                          lo={"t": [0.5, 1.0], "v": [-2.0, -3.0]}, hi=None))
-    rb = run_real(b)
-    rep_b = rb[0] == "raise"
-    listed = {k["id"]: k for k in c.known}
-    for fid, rep, what in (
-        ("C05-A", rep_a, "one-row 2-D Timeseries bound of a vector extra variable: every component gets component 0's bound"),
-        ("C05-B", rep_b, "extra variable with a Timeseries bound not covering t0 and a piecewise-constant "
-                         "interpolation method: transcribe raises AttributeError"),
-    ):
-        ids = [i for i, k in listed.items() if i == fid or k.get("tmp_id") == fid]
-        c.hit("probe/%s/%s" % (fid, "reproduced" if rep else "not-reproduced"))
-        if ids:
-            c.known_probe(ids[0], bool(rep), what)
-        else:
-            c.notes.append("probe %s (%s): %s [not listed in known_findings.jsonl, reported to the coordinator]"
-                           % (fid, "reproduced" if rep else "not reproduced", what))
-
-
 CORPUS = [
     # F11 (fixed in 0f50280): 2-D Timeseries bound of a vector path variable
     dict(times=[0.0, 1.0, 2.0], E=1, theta=1.0,
@@ -737,6 +697,18 @@ CORPUS = [
                     lo={"t": [0.0, 1.0, 2.0], "v": [[1.0, 100.0], [2.0, 200.0], [3.0, 300.0]]},
                     hi={"t": [0.0, 1.0, 2.0], "v": [[1.5, 100.5], [2.5, 200.5], [3.5, 300.5]]})],
          hist=[{}]),
+    # F35 (fixed in 9c9e7aa): one-row 2-D Timeseries bound of a vector extra variable
+    dict(times=[0.0, 1.0, 2.0], E=1, theta=1.0, hist=[{}],
+         vars=[dict(name="x0", kind="state", size=1, times=[0.0, 1.0, 2.0], nom=1.0, lo=None, hi=None, mode=0,
+                    nokey=True),
+               dict(name="ev0", kind="extra", size=3, times=[0.0], nom=1.0, mode=0, nokey=False, lo=None,
+                    hi={"t": [0.0], "v": [[1.0, 2.0, 3.0]]})]),
+    # F34 (fixed in 2b3db3f): Timeseries bound of an extra variable not covering t0, piecewise-constant mode
+    dict(times=[0.0, 1.0, 2.0], E=1, theta=1.0, hist=[{}],
+         vars=[dict(name="x0", kind="state", size=1, times=[0.0, 1.0, 2.0], nom=1.0, lo=None, hi=None, mode=0,
+                    nokey=True),
+               dict(name="ev0", kind="extra", size=1, times=[0.0], nom=1.0, mode=1, nokey=False,
+                    lo={"t": [0.5, 1.0], "v": [-2.0, -3.0]}, hi=None)]),
 ]
 
 
@@ -785,7 +757,6 @@ def run(c):
                 c.hit("bound/" + kk)
         for hk in inst.get("_hist_kinds", {}).values():
             c.hit("hist/" + hk)
-    probe_findings(c)
     stream_interp(c, c.n(300, 4000))
     stream_solve(c, c.n(6, 40))
     c.notes.append("random streams are samples; the unbounded claim is carried by the theorems; the oracle "
